@@ -18,6 +18,10 @@ Tie to /repo on every run:
      every expansion of an identity (left and right side one after the other, radial functions r^n);
      library value of op(a,b) = op on the library's own values at the same array = op on a definition-level
      power series at a copy of the ORIGINAL point, tolerance 1e-10 * scale;
+ (D) dtype matrix: coefficient dtype {int,float,complex} x operand dtype {int,float,complex} (all nine pairs, 2-D and
+     3-D, every run) for ldot ildot rdot irdot, scalar multiples, sums and products: exact tier through the real
+     embedding of complex numbers (re/im stacked, block matrices) against the same Coq model operations, float tier
+     against np.dot(c, T(u)) and the definition-level series;
  (G) argument guard: every call into the library made by (X) and (F) (powexp, __call__, arithmetic, ldot/rdot,
      slices, reduce..., constructexpansion) must leave its arguments (evaluation point, operands, matrices)
      bit-identical to a snapshot taken before the call (key c16-input-mutated).
@@ -271,6 +275,90 @@ def scenario_reduce(rng, T, d, B):
     emit("reduce.separate", "(separatecoeff QK %d %s %s (reduce QK %d %s %s %s))" % (d, V, Pl, d, V, P, A), T(a).reduce().separate())
 
 
+def scenario_dtypes(rng, T, d, B, ck, cdt=None, mdt=None):
+    """coefficient dtype {int,float,complex} x operand dtype {int,float,complex} for every operation that takes a matrix, a
+    scalar or a second expansion; complex values go to the (real) model through the real embedding (re/im stacked, complex
+    matrices as real block matrices), so a lost imaginary part or an integer truncation is a coefficient mismatch"""
+    cdt = cdt or rng.choice(tc.DTYPES); mdt = mdt or rng.choice(tc.DTYPES)
+    r, m, q = rng.randint(1, 2), rng.randint(1, 2), rng.randint(1, 2)
+    if rng.random() < .2: r = m = 1
+    nl = tc.rand_nl(rng, -2, 4, 2 if d == 3 else 3, rng.choice([1, 2, 3]))
+    a = tc.typed_expansion(rng, d, (r, m), nl, cdt)
+    n = r * m
+    inp = {"dim": d, "shape": [r, m], "coef_dtype": cdt, "operand_dtype": mdt,
+           "a": [[nn, l, repr(np.asarray(c).tolist())] for nn, l, c in a]}
+    Av = B.define(tc.mkx(2 * n, tc.vstackc(a)), xtype(2 * n))
+    Ah = B.define(tc.mkx(2 * n, tc.hstackc(a)), xtype(2 * n))
+    Af = B.define(tc.mkx(2 * n, tc.fstackc(a)), xtype(2 * n))
+
+    def attempt(op, f, key=None):
+        try:
+            return f()
+        except (ArithmeticError, ValueError, TypeError, IndexError) as e:
+            kk = key or ("c16-dtype-exception-%s" % op)
+            cnt = ck.extra.setdefault("dtype_exceptions", {}); cnt[kk] = cnt.get(kk, 0) + 1
+            if cnt[kk] > 3: return None                      # all counted, three replays per class are enough
+            ck.violation("Taylor%dD: %s with %s coefficients and a %s operand raises %s: %s" % (d, op, cdt, mdt, type(e).__name__, str(e)[:140]),
+                         dict(inp, op=op), key=key or ("c16-dtype-exception-%s" % op))
+            return None
+
+    def emit(op, nout, model, stacked, extra):
+        B.add("code true (xcmp %d (peqb QK %d) %s %s)" % (nout, nout, model, tc.mkx(nout, stacked)),
+              op="%s[%s coeff, %s operand]" % (op, cdt, mdt), inp=dict(inp, **extra), impl=tc.jsonable(stacked),
+              dim=d, shape=(r, m), size=len(a))
+    # --- left / right multiplication by a matrix
+    C = tc.rand_typed(rng, mdt, (q, r)); CB = tc.mkv(4 * q * r, tc.block_l(C))
+    for op in ("ldot", "ildot"):
+        t = T(a)
+        with tc.unchanged("dtype " + op, C=C):
+            res = attempt(op, (lambda: t.ldot(C)) if op == "ldot" else (lambda: t.ildot(C)))
+        if res is not None:
+            emit(op, 2 * q * m, "(mapcoeff QK (pwmod QK %d) (pwmod QK %d) (fun b => matmul QK %d %d %d %s b) %s)" % (2 * n, 2 * q * m, 2 * q, 2 * r, m, CB, Av),
+                 tc.vstackc(res.coefflist), {"C": repr(np.asarray(C).tolist())})
+    C2 = tc.rand_typed(rng, mdt, (m, q)); CB2 = tc.mkv(4 * m * q, tc.block_r(C2))
+    for op in ("rdot", "irdot"):
+        t = T(a)
+        with tc.unchanged("dtype " + op, C=C2):
+            res = attempt(op, (lambda: t.rdot(C2)) if op == "rdot" else (lambda: t.irdot(C2)))
+        if res is not None:
+            emit(op, 2 * r * q, "(mapcoeff QK (pwmod QK %d) (pwmod QK %d) (fun b => matmul QK %d %d %d b %s) %s)" % (2 * n, 2 * r * q, r, 2 * m, 2 * q, CB2, Ah),
+                 tc.hstackc(res.coefflist), {"C": repr(np.asarray(C2).tolist())})
+    # --- scalar (python scalar and numpy scalar)
+    k = tc.rand_typed(rng, mdt, ())
+    kp = {"int": int, "float": float, "complex": complex}[mdt](k)
+    KB = tc.mkv(4, tc.block_l(np.array([[kp]])))
+    for op, f in (("k*a", lambda: kp * T(a)), ("a*k", lambda: T(a) * kp), ("a*numpy_scalar", lambda: T(a) * k)):
+        res = attempt(op, f)
+        if res is not None:
+            emit(op, 2 * n, "(mapcoeff QK (pwmod QK %d) (pwmod QK %d) (fun b => matmul QK 2 2 %d %s b) %s)" % (2 * n, 2 * n, n, KB, Af),
+                 tc.fstackc(res.coefflist), {"k": repr(kp)})
+    # --- sum / difference with an expansion of the other dtype (orders overlap so that entries are merged)
+    nlb = [(nn, rng.randint(0, 2 if d == 3 else 3)) for nn, _ in nl[:2]] + tc.rand_nl(rng, -2, 4, 2, 1)
+    seen = set(); nlb = [x for x in nlb if not (x in seen or seen.add(x))]
+    b = tc.typed_expansion(rng, d, (r, m), nlb, mdt)
+    Bf = B.define(tc.mkx(2 * n, tc.fstackc(b)), xtype(2 * n))
+    inb = {"b": [[nn, l, repr(np.asarray(c).tolist())] for nn, l, c in b]}
+    for op, beta, f in (("a+b", "(qq 1 1)", lambda: T(a) + T(b)), ("a-b", "(qq (-1) 1)", lambda: T(a) - T(b))):
+        res = attempt(op, f, key="c16-sum-mixed-dtype")
+        if res is not None:
+            emit(op, 2 * n, "(sumcoeff QK (pwmod QK %d) (qq 1 1) %s %s %s)" % (2 * n, Af, beta, Bf), tc.fstackc(res.coefflist), inb)
+    t = T(a)
+    res = attempt("a+=b", lambda: t.__iadd__(T(b)), key="c16-sum-mixed-dtype")
+    if res is not None:
+        emit("a+=b", 2 * n, "(sumcoeff QK (pwmod QK %d) (qq 1 1) %s (qq 1 1) %s)" % (2 * n, Af, Bf), tc.fstackc(res.coefflist), inb)
+    # --- product of expansions of the two dtypes (matrix product; l_a + l_b <= Lmax)
+    lcap = 4 - max(l for _, l in nl)
+    b2 = tc.typed_expansion(rng, d, (m, q), tc.rand_nl(rng, -2, 4, min(lcap, 2), rng.choice([1, 2])), mdt)
+    res = attempt("a*b", lambda: T(a) * T(b2))
+    if res is not None:
+        # (re, im) of a complex matrix product through the real block embedding: [re;im](a b) = block_l(a) [re;im](b)
+        Ab = B.define(tc.mkx(4 * n, [(nn, l, np.array([tc.block_l(x) for x in tc.as3(c)])) for nn, l, c in a]), xtype(4 * n))
+        Bv = B.define(tc.mkx(2 * m * q, tc.vstackc(b2)), xtype(2 * m * q))
+        emit("a*b", 2 * r * q, "(coeffproduct QK %d 4 (pwmod QK %d) (pwmod QK %d) (pwmod QK %d) (matmul QK %d %d %d) %s %s)"
+             % (d, 4 * n, 2 * m * q, 2 * r * q, 2 * r, 2 * m, q, Ab, Bv), tc.vstackc(res.coefflist),
+             {"b": [[nn, l, repr(np.asarray(c).tolist())] for nn, l, c in b2]})
+
+
 def scenario_eval(rng, T, d, B):
     shape = rng.choice(SHAPES); n = tc.nflat(shape)
     V = "(pwmod QK %d)" % n
@@ -323,11 +411,22 @@ def exact_tier(ck, Ts):
             elif sc == "linmap": scenario_linmap(rng, T, d, B)
             elif sc == "construct": scenario_construct(rng, T, d, B)
             elif sc == "reduce": scenario_reduce(rng, T, d, B)
+            elif sc == "dtypes": scenario_dtypes(rng, T, d, B, ck)
             else: scenario_eval(rng, T, d, B)
         except (ArithmeticError, ValueError, TypeError, IndexError) as e:
             # an exception of the implementation on an input inside the property's domain
             ck.violation("implementation raised %s: %s in scenario %s" % (type(e).__name__, e, sc),
                          {"scenario": sc, "dim": d, "group": g, "seed": ck.seed}, key="c16-exception-%s" % sc)
+    # the full dtype matrix, systematically: every (coefficient dtype, operand dtype) pair, 3-D and 2-D
+    import itertools as _it
+    for rep in range(ck.n(1, 6)):
+        for i, (cdt, mdt) in enumerate(_it.product(tc.DTYPES, tc.DTYPES)):
+            for d in ((3, 2) if (not ck.quick or True) else (3,)):
+                try:
+                    scenario_dtypes(rng, Ts[d], d, B, ck, cdt, mdt)
+                except (ArithmeticError, ValueError, TypeError, IndexError) as e:
+                    ck.violation("implementation raised %s: %s in the dtype matrix (%s coefficients, %s operand)" % (type(e).__name__, e, cdt, mdt),
+                                 {"dim": d, "coef_dtype": cdt, "operand_dtype": mdt}, key="c16-exception-dtypes")
     for d, msg in aliasing:
         ck.violation(msg, {"dim": d}, key="c16-operand-modified")
     # evaluate in chunks (definitions are shared, so a chunk = the whole defs + a slice of terms)
@@ -357,7 +456,7 @@ def exact_tier(ck, Ts):
         if c != 0:
             ck.violation("exact correspondence: %s of Taylor%dD differs from the model" % (meta["op"], meta["dim"]),
                          {"op": meta["op"], "input": meta["inp"], "impl_result": meta["impl"], "model_code": c,
-                          "tolerance": meta.get("tol", 0)}, key="c16-exact-%s" % meta["op"].split("(")[0])
+                          "tolerance": meta.get("tol", 0)}, key="c16-exact-%s" % meta["op"].split("(")[0].split("[")[0])
     ck.extra["exact_cases"] = len(codes)
     ck.extra["traces_validated_against_impl"] = len(codes)
 
@@ -397,7 +496,7 @@ def float_tier(ck, Ts):
         uorig = u.copy()
         r = float(np.linalg.norm(uorig))
         op = rng.choice(["sum", "diff", "neg", "scalar", "ldot", "rdot", "product", "product-sm", "slice", "setitem", "truncate",
-                         "reduce", "reducecoeff", "collectcoeff", "separate", "construct", "powexp"])
+                         "reduce", "reducecoeff", "collectcoeff", "separate", "construct", "powexp", "dtypes", "dtypes"])
         checks = []          # (label, lhs, rhs_def, rhs_lib or None, scale)
         try:
             if op in ("sum", "diff", "neg", "scalar", "truncate", "slice", "setitem"):
@@ -489,6 +588,43 @@ def float_tier(ck, Ts):
                     elif op == "collectcoeff": t = T(T.collectcoeff(ta))
                     else: t = ta.copy().reduce().separate()
                 checks.append((op, ev(t, u), va, ev(ta, u), sc))
+            elif op == "dtypes":
+                # coefficient dtype x operand dtype: (c.T)(u) = np.dot(c, T(u)), (T.c)(u) = np.dot(T(u), c), (k T)(u) = k T(u), (a+b)(u) = a(u)+b(u)
+                def typed(dt, shape):
+                    if dt == "int": return nr.integers(-3, 4, size=shape)
+                    if dt == "float": return nr.normal(size=shape)
+                    return nr.normal(size=shape) + 1j * nr.normal(size=shape)
+                cdt, mdt = rng.choice(tc.DTYPES), rng.choice(tc.DTYPES)
+                rr, m, q = rng.randint(1, 3), rng.randint(1, 3), rng.randint(1, 3)
+                nl = tc.rand_nl(rng, -2, 4, 4, rng.randint(1, 3))
+                a = [(n, l, typed(cdt, (tc.npow_count(d, l), rr, m))) for n, l in nl]
+                b = [(n, l, typed(mdt, (tc.npow_count(d, l), rr, m))) for n, l in tc.rand_nl(rng, -2, 4, 4, rng.randint(1, 3))]
+                ta = T(a); va = tc.value(a, uorig, d); vb = tc.value(b, uorig, d)
+                C = typed(mdt, (q, rr)); C2 = typed(mdt, (m, q)); k = typed(mdt, ())[()]
+                kp = {"int": int, "float": float, "complex": complex}[mdt](k)
+                tag = "[%s coeff, %s operand]" % (cdt, mdt)
+                sa = 1 + absscale(a, r)
+                with tc.unchanged("ldot" + tag, a=ta, C=C): t = ta.ldot(C)
+                checks.append(("ldot" + tag, ev(t, u), np.dot(C, va), np.dot(C, ev(ta, u)), sa * (1 + np.abs(C).sum())))
+                t = T(a)
+                with tc.unchanged("ildot" + tag, C=C): t.ildot(C)
+                checks.append(("ildot" + tag, ev(t, u), np.dot(C, va), np.dot(C, ev(ta, u)), sa * (1 + np.abs(C).sum())))
+                with tc.unchanged("rdot" + tag, a=ta, C=C2): t = ta.rdot(C2)
+                checks.append(("rdot" + tag, ev(t, u), np.dot(va, C2), np.dot(ev(ta, u), C2), sa * (1 + np.abs(C2).sum())))
+                t = T(a)
+                with tc.unchanged("irdot" + tag, C=C2): t.irdot(C2)
+                checks.append(("irdot" + tag, ev(t, u), np.dot(va, C2), np.dot(ev(ta, u), C2), sa * (1 + np.abs(C2).sum())))
+                with tc.unchanged("k*a" + tag, a=ta): t1 = kp * ta; t2 = ta * kp
+                checks.append(("k*a" + tag, ev(t1, u), kp * va, kp * ev(ta, u), sa * (1 + abs(kp))))
+                checks.append(("a*k" + tag, ev(t2, u), kp * va, kp * ev(ta, u), sa * (1 + abs(kp))))
+                tb = T(b)
+                try:
+                    with tc.unchanged("a+b" + tag, a=ta, b=tb): t = ta + tb
+                    checks.append(("a+b" + tag, ev(t, u), va + vb, ev(ta, u) + ev(tb, u), sa + absscale(b, r)))
+                except (ArithmeticError, ValueError, TypeError, IndexError) as e:
+                    cnt = ck.extra.setdefault("dtype_exceptions", {}); cnt["c16-sum-mixed-dtype"] = cnt.get("c16-sum-mixed-dtype", 0) + 1
+                    if cnt["c16-sum-mixed-dtype"] <= 3: ck.violation("Taylor%dD: a+b with %s and %s coefficient arrays raises %s: %s" % (d, cdt, mdt, type(e).__name__, str(e)[:140]),
+                                 {"op": "a+b", "dim": d, "coef_dtype": cdt, "operand_dtype": mdt, "nl_a": nl, "iteration": it}, key="c16-sum-mixed-dtype")
             elif op == "powexp":
                 with tc.unchanged("powexp(normalize=True)", u=u): pn, mag = T.powexp(u)
                 with tc.unchanged("powexp(normalize=False)", u=u): pf = T.powexp(u, normalize=False)
@@ -524,11 +660,11 @@ def float_tier(ck, Ts):
             if not (err <= FTOL):
                 ck.violation("float evaluator: value(%s) differs from the operation on the values (direct power series at the original point) by %.3g (relative to scale)" % (label, err),
                              {"op": label, "dim": d, "complex": cplx, "u": uorig.tolist(), "u_after": u.tolist(), "lhs": np.asarray(lhs).tolist(),
-                              "rhs": np.asarray(rhs).tolist(), "iteration": it, "seed": ck.seed}, key="c16-float-%s" % label)
+                              "rhs": np.asarray(rhs).tolist(), "iteration": it, "seed": ck.seed}, key="c16-float-%s" % label.split("[")[0])
             elif not (err_lib <= FTOL):
                 ck.violation("library identity: %s evaluated at u differs from the operation applied to the library's own values at the SAME array u by %.3g" % (label, err_lib),
                              {"op": label, "dim": d, "complex": cplx, "u": uorig.tolist(), "u_after": u.tolist(), "lhs": np.asarray(lhs).tolist(),
-                              "rhs_library": np.asarray(rhs_lib).tolist(), "iteration": it, "seed": ck.seed}, key="c16-same-array-%s" % label)
+                              "rhs_library": np.asarray(rhs_lib).tolist(), "iteration": it, "seed": ck.seed}, key="c16-same-array-%s" % label.split("[")[0])
     ck.extra["float_worst_rel_err"] = worst
 
 
